@@ -28,7 +28,7 @@ LEVEL_TEXT = ('Lean 4 theorems over a line-by-line model of expandDef, Definitio
               'Known finding D49 (\\expandafter executes an unexpandable assignment) has a dual-variant model: theorem for the repaired variant, kernel-checked counterexample for the code as is. '
               'Outside the proved fragment (## in macros without parameter text, \\ifx in bodies, the code as is with \\expandafter) programs are tied by the document-level correspondence stream (real interpreter vs model vs TeX evaluator on generated NF-prog programs).')
 LEVEL_NOTE = ('Trusted: Lean kernel (axioms propext, Classical.choice, Quot.sound only), the correspondence harness and its program generator, the C01 tokenizer model used to tokenize programs for the Lean side, CPython. '
-              'Not covered: \\edef/\\xdef as true expansion, \\long/\\global prefixes, #{ patterns (the code handles them differently from TeX; outside the stated quantifier), character \\let; \\ifx only inside NF-prog 4 (two characters, or two macros without parameters and with plain-text bodies): its comparison is proved (ifx_compare_is_tex_partial), its branch selection is tied by the prog stream; '
+              'Not covered: \\edef/\\xdef as true expansion, \\long/\\global prefixes, #{ patterns (the code handles them differently from TeX; outside the stated quantifier), character \\let; \\ifx only inside NF-prog 4 (two characters, or two macros without parameters and with plain-text bodies): its comparison (ifx_compare_is_tex_partial), its branch selection (branch_selection_is_tex_partial) and the whole step (ifx_step_refines_partial) are proved and part of the program-level theorem run_eq_texRun_language_partial; only macro bodies that contain the token \\ifx are tied by the prog stream alone; '
               'run_eq_texRun_statement (filter namesOk instead of fragOk) is stated, not proved: missing are ## in parameterless macros and \\ifx tokens in replacement texts.')
 TECHNIQUE = 'Lean 4 proofs (induction over replacement text / parameter text / token stream; simulation with fuel monotonicity) + independent executable TeX semantics + differential correspondence at component and document level'
 TRUSTED = ['Spec/TeXMacro.lean is the independent evaluation (written from TeXbook ch. 20; no TeX engine is installed)',
